@@ -211,19 +211,23 @@ fn freq(a: &Args) {
     for c in cells.iter() {
         let t0 = std::time::Instant::now();
         let m = c.m as usize;
+        let mut m = m;
         if c.reg.starts_with("def") {
-            // the cell was written for the documented default parameters: if the crate's defaults are others, skip it
+            // the cell was written for the documented default parameters b, a, q: if the crate's defaults are others, skip
+            // it; the number of registers is whatever the default sketcher really has
             let d = catch(|| {
                 let s = ss_default_u16();
                 (s.1, s.0.get_signature().len())
             });
-            let same = match d {
-                Ok((p, len)) => p.b == c.b && p.a == c.a && p.q == c.q && p.m == c.m && len == m,
-                Err(_) => true, // a panic of the constructor is reported by the trials below
-            };
-            if !same {
-                res.push(json!({"hist": vec![0u64; m + 1], "panics": 0, "parts_trials": 0, "parts_mismatch": 0, "skipped": true, "wall_ms": 0}));
-                continue;
+            match d {
+                Ok((p, len)) => {
+                    if !(p.b == c.b && p.a == c.a && p.q == c.q) {
+                        res.push(json!({"hist": vec![0u64; m + 1], "panics": 0, "parts_trials": 0, "parts_mismatch": 0, "skipped": true, "wall_ms": 0}));
+                        continue;
+                    }
+                    m = len;
+                }
+                Err(_) => {} // a panic of the constructor is reported by the trials below
             }
         }
         let nparts = if c.nu + c.nv + c.nw <= 5000 { 32u64 } else { 0 };
@@ -251,7 +255,7 @@ fn freq(a: &Args) {
                     (h1, p1 + p2, b1 + b2)
                 },
             );
-        res.push(json!({"hist": hist, "panics": panics, "parts_trials": nparts.min(c.trials), "parts_mismatch": bad,
+        res.push(json!({"hist": hist, "panics": panics, "m": m, "parts_trials": nparts.min(c.trials), "parts_mismatch": bad,
                         "wall_ms": t0.elapsed().as_millis() as u64}));
     }
     write_json(&a.str("out"), &json!({ "cells": res }));
